@@ -262,7 +262,7 @@ fn default_pair(c: Cont, alt: bool) -> (TileFormat, TileCompression) {
 pub fn run(ctx: Arc<Ctx>) {
 	ctx.rule(
 		"tile sets: BFS from the empty set by 'add (coordinate, payload)' over 14 coordinates x 5 payloads (canonical form = sorted map) to depth 2 (quick) / 3 (thorough; file-based targets depth 2), \
-		 x 5 target formats x two (format, compression) pairs; every accepted (format, compression) pair x representative sets; named families (dense 130x130 at z=8 -> PMTiles leaf directories, full z0..4 pyramid, 70/100 KiB payloads, level-31 corners, PMTiles root/leaf switch sweep + counts k*4096 and k*4096+1 (thorough: -1..+2) for k=1..5, diamond-shaped sparse levels, tiles of one block that differ in a single byte at swept positions); every format written to a path that already holds an earlier output (superset, shifted set, same coordinates with equal-size / longer payloads). \
+		 x 5 target formats x two (format, compression) pairs; every accepted (format, compression) pair x representative sets; named families (dense 130x130 at z=8 -> PMTiles leaf directories, full z0..4 pyramid, 70/100 KiB payloads, level-31 corners, PMTiles root/leaf switch sweep + counts k*4096 and k*4096+1 (thorough: -1..+2) for k=1..5, diamond-shaped sparse levels, tiles of one block that differ in a single byte at swept positions, stored lengths and PMTiles tile-id distances 2^k - 1, 2^k, 2^k + 1 on the borders of the varint encoding); every format written to a path that already holds an earlier output (superset, shifted set, same coordinates with equal-size / longer payloads). \
 		 oracle: repository reader lookups + streams = independent decoder = source mapping; header fields (zoom range includes the stored levels, bounds valid and containing the top level's tile centres, PMTiles counters 0 or exact, MBTiles minzoom/maxzoom/bounds rows, mandatory name and format rows present) consistent with the stored tiles. non-trivial = distinct tile sets spanning >= 2 blocks of a level, with duplicate payloads, payloads on both sides of 1000 bytes, or a zoom gap",
 	);
 	ctx.assume("compression libraries (flate2, brotli) and SQLite are the trusted base shared with the repository; the independent decoders are cross-validated against the repository's writers on this very space");
@@ -385,6 +385,39 @@ pub fn run(ctx: Arc<Ctx>) {
 		}
 		near.insert((9, 310, 310), (0..len).map(|j| b"near-duplicate tile payload "[j % 28]).collect());
 		fams.push((format!("{} tiles of one block, {name}, pairwise different in one byte (head / middle / tail)", near.len()), near, all.clone()));
+	}
+	// numbers on the borders of the variable-length integer encoding (PMTiles directories: tile-id deltas, lengths,
+	// offsets): stored lengths 2^k - 1, 2^k, 2^k + 1 and pairs of tiles whose ids are 2^k - 1, 2^k, 2^k + 1 apart,
+	// k = 7, 14, 21 (28 for ids), plus single tiles whose absolute id is such a number
+	{
+		let mut lens = TileMap::new();
+		let mut i = 0u32;
+		for k in [7u32, 14, 21] {
+			for d in [-1i64, 0, 1] {
+				let len = ((1i64 << k) + d) as usize;
+				lens.insert((9, 300 + i, 300), tilesets::lcg_bytes(1000 + i as u64, len));
+				i += 1;
+			}
+		}
+		fams.push(("stored tile lengths 2^k - 1, 2^k, 2^k + 1 for k = 7, 14, 21".into(), lens, mem.clone()));
+		for (k, z) in [(7u32, 4u8), (14, 8), (21, 11), (28, 15)] {
+			for d in [-1i64, 0, 1] {
+				let delta = ((1i64 << k) + d) as u64;
+				let base = crate::codec::pm_tile_id(z, 0, 0);
+				let mut pair = TileMap::new();
+				pair.insert((z, 0, 0), vec![1, 2, 3]);
+				if let Ok(key) = crate::codec::pm_id_to_zxy(base + delta) {
+					pair.insert(key, vec![4, 5, 6, 7]);
+					fams.push((format!("two tiles of level {z} whose PMTiles ids are {delta} apart"), pair, vec![Cont::Pmtiles]));
+				}
+				if let Ok(key) = crate::codec::pm_id_to_zxy(delta) {
+					let mut single = TileMap::new();
+					single.insert((0, 0, 0), vec![9]);
+					single.insert(key, vec![8, 8]);
+					fams.push((format!("tile with PMTiles id {delta} next to the level-0 tile"), single, vec![Cont::Pmtiles]));
+				}
+			}
+		}
 	}
 	let famr = &fams;
 	let jobs: Vec<(usize, Cont)> = fams.iter().enumerate().flat_map(|(i, f)| f.2.iter().map(move |c| (i, *c))).collect();
